@@ -1075,9 +1075,9 @@ func (sc *RevScenario) execInBubble(obs *RevObs, altSeed uint32, onlyWorld int, 
 	case CancelAt:
 		baseCtx, cancel = context.WithCancel(baseCtx)
 		c := cancel
-		time.AfterFunc(sc.CancelAfter+time.Millisecond/2, c)
+		time.AfterFunc(sc.CancelAfter+cancelOffset, c)
 	case CancelDeadline:
-		baseCtx, cancel = context.WithTimeout(baseCtx, sc.CancelAfter+time.Millisecond/2)
+		baseCtx, cancel = context.WithTimeout(baseCtx, sc.CancelAfter+cancelOffset)
 	case CancelOnXchg:
 		baseCtx, cancel = context.WithCancel(baseCtx)
 		c := cancel
